@@ -113,7 +113,8 @@ pub fn gen_history(pid: &str, rng: &mut Rng, uni: &Universe, persistent: bool, s
                         let mut heads: Vec<([u8; 32], u64)> = (0..n_heads).map(|_| ([rng.below(9) as u8 + 1; 32], T0 + rng.below(3))).collect();
                         heads.sort();
                         heads.dedup_by(|a, b| a.0 == b.0);
-                        let limit = match rng.below(4) { 0 => None, _ => Some(1 + rng.below(40 * (n_heads as u64 + 1)) as usize) };
+                        // every limit, zero included (even the empty list needs one byte)
+                        let limit = match rng.below(4) { 0 => None, _ => Some(rng.below(40 * (n_heads as u64 + 1)) as usize) };
                         (heads, limit)
                     };
                     h.push(SOp::HeadsEncode { heads, limit });
